@@ -251,13 +251,19 @@ def stored_stream(p, sizes, pad=0):
 def build_stream(desc, zipmodel=None):
     """desc -> (stream octets, plaintext or None).  Deterministic (replayable)."""
     how = desc["how"]
+    if how == "concat":
+        return bytes.fromhex(desc["hex"]), None
     p = data_of(desc["data"])
     if how == "impl":
         return zipmodel.compress(p), p
     if how == "zeros":
         return zeros_stream(desc["data"]["n"], desc["wbits"]), None
     if how == "obj":
-        co = zlib.compressobj(desc["level"], zlib.DEFLATED, desc["wbits"], desc.get("mem", 8), desc["strategy"])
+        if desc.get("zdict"):
+            co = zlib.compressobj(desc["level"], zlib.DEFLATED, desc["wbits"], desc.get("mem", 8), desc["strategy"],
+                                  bytes.fromhex(desc["zdict"]))
+        else:
+            co = zlib.compressobj(desc["level"], zlib.DEFLATED, desc["wbits"], desc.get("mem", 8), desc["strategy"])
         if desc.get("flush"):
             step, out = desc["flush"], []
             for i in range(0, max(len(p), 1), step):
@@ -267,6 +273,8 @@ def build_stream(desc, zipmodel=None):
             s = b"".join(out)
         else:
             s = co.compress(p) + co.flush()
+        if desc.get("hwrap"):            # raw stream put by hand behind the default zlib header, Adler-32 appended
+            s = ZHEAD + s + struct.pack(">I", zlib.adler32(p))
     elif how == "stored":
         s = stored_stream(p, desc["sizes"], desc.get("pad", 0))
         if desc.get("wrap"):
@@ -301,7 +309,7 @@ def ref_inflate(wbits, s):
             if len(head) < HEADCAP:
                 head += out[:HEADCAP - len(head)]
             buf = d.unconsumed_tail
-            if len(out) < CH and not buf:
+            if d.eof or (len(out) < CH and not buf):     # (at eof zlib leaves the rest in unused_data AND unconsumed_tail)
                 break
     except zlib.error:
         return None
@@ -679,6 +687,11 @@ def run(ctx):
     with Instr() as ins:
         zipm = ins.zipmodel
 
+        hist_pool = []
+
+        def verdict_key(r):
+            return ("ok", len(r[1]), zlib.adler32(r[1])) if r[0] == "ok" else ("err", exn_class(r[1]))
+
         def run_decompress(s, desc, coq=True, contract_ms=(), contract_coq=None):
             """real decompress on s + direct oracle + correspondence case"""
             ins.reset()
@@ -705,6 +718,8 @@ def run(ctx):
                 notes_samples.setdefault("raw_prefix_gap", {
                     "stream_hex": short(s, 40), "raw_expansion_len": ref_raw[1],
                     "impl": "ok %d" % len(r[1]) if r[0] == "ok" else exn_class(r[1])})
+            if len(s) <= 70000 and len(hist_pool) < 6000:
+                hist_pool.append((s, desc, verdict_key(r)))
             spf = spf_for(desc)
             if coq:
                 ssp = spf(s)
@@ -929,6 +944,58 @@ def run(ctx):
                    "78da0300000001", "78010300000001", "785e0300000001", "1f8b0800"]:
             foreign({"data": {"cls": "lit", "hex": "", "n": 0}, "how": "stored", "sizes": [1], "trunc": 5,
                      "tailjunk": hx}, contract_ms=(LIMIT + 1, 1))
+        # ---- E2. both sides of the boundary for EVERY stream class: stored / fixed Huffman / dynamic Huffman /
+        # Huffman-only / RLE / multi-block, raw and behind the default zlib header, with and without trailing octets
+        # after the final block; expansion exactly 255999, 256000, 256001 and 262144, 262145 (= 256 KiB, +1)
+        classes = [("stored", {"how": "stored", "sizes": [65535]}),
+                   ("stored-small-blocks", {"how": "stored", "sizes": [1, 4000, 65535]}),
+                   ("fixed", {"how": "obj", "level": 6, "wbits": -15, "strategy": zlib.Z_FIXED}),
+                   ("dynamic", {"how": "obj", "level": 6, "wbits": -15, "strategy": 0}),
+                   ("dynamic-9", {"how": "obj", "level": 9, "wbits": -15, "strategy": 0}),
+                   ("huffman-only", {"how": "obj", "level": 6, "wbits": -15, "strategy": zlib.Z_HUFFMAN_ONLY}),
+                   ("rle", {"how": "obj", "level": 6, "wbits": -15, "strategy": zlib.Z_RLE}),
+                   ("multi-block", {"how": "obj", "level": 6, "wbits": -15, "strategy": 0, "flush": 50000}),
+                   ("level-0", {"how": "obj", "level": 0, "wbits": -15, "strategy": 0})]
+        for cname, base in classes:
+            for n in (LIMIT - 1, LIMIT, LIMIT + 1, 262144, 262145):
+                for wrapd in (False, True):
+                    for junk in ((None, "00", "deadbeef01") if not ctx.quick else (None, rng.choice(["00", "deadbeef01", "789c"]))):
+                        if ctx.quick and junk is not None and n in (262144, 262145):
+                            continue
+                        d = {"cls": "periodic", "pat": pat.hex(), "n": n} if rng.randrange(2) else {"cls": "const", "c": cbyte, "n": n}
+                        desc = dict(base, data=d)
+                        if wrapd:
+                            desc["wrap" if base["how"] == "stored" else "hwrap"] = True
+                        if junk:
+                            desc["tailjunk"] = junk
+                        bump("boundary_" + cname)
+                        foreign(desc, coq=junk is None or not ctx.quick, contract_coq=False)
+        # two complete streams back to back (the second one ignored? bounded?), either of them a bomb
+        small_raw = zlib.compress(b"first stream " * 20)[2:-4]
+        bomb_raw = zeros_stream(4 << 20, -15)
+        for first, second, lab in [(small_raw, bomb_raw, "small+bomb"), (small_raw, small_raw, "small+small"),
+                                   (ZHEAD + small_raw + struct.pack(">I", zlib.adler32(b"first stream " * 20)), bomb_raw, "wrapped+bomb"),
+                                   (bomb_raw, small_raw, "bomb+small"), (small_raw, ZHEAD + small_raw, "small+wrapped")]:
+            bump("concatenated")
+            run_decompress(first + second, {"data": {"cls": "lit", "hex": "", "n": 0}, "how": "concat", "label": lab,
+                                            "hex": (first + second).hex()},
+                           coq=len(first + second) <= 1500, contract_ms=(LIMIT + 1,), contract_coq=False)
+        # preset dictionary: zlib header with FDICT (never 78 9C) and raw streams that refer to a dictionary
+        for wb in (15, -15):
+            for n in (300, LIMIT + 1):
+                bump("preset_dictionary")
+                foreign({"data": {"cls": "periodic", "pat": pat.hex(), "n": n}, "how": "obj", "level": 6, "wbits": wb,
+                         "strategy": 0, "zdict": (pat * 20).hex()}, contract_coq=False)
+        # a short stream cut at EVERY prefix length (raw and behind the default header)
+        text = bytes(rng.choice(b"abcdefgh {}:,\"0123") for _ in range(ctx.scale(90, 400)))
+        for wb in (-15, 15):
+            full = build_stream({"data": {"cls": "lit", "hex": text.hex(), "n": len(text)}, "how": "obj", "level": 6,
+                                 "wbits": wb, "strategy": 0})[0]
+            for k in range(1, len(full) + 1):
+                bump("every_prefix")
+                foreign({"data": {"cls": "lit", "hex": text.hex(), "n": len(text)}, "how": "obj", "level": 6,
+                         "wbits": wb, "strategy": 0, "trunc": k}, coq=k % 3 == 0 or k < 8 or not ctx.quick,
+                        contract_ms=(LIMIT + 1,) if k % 7 == 0 else (), contract_coq=False)
         # the raw-prefix gap: a valid raw stream whose first stored block makes it begin with 78 9C
         gap_payload = bytes(rng.randrange(256) for _ in range(0x9C))
         gap = bytes([0x78]) + struct.pack("<HH", 0x9C, 0x9C ^ 0xFFFF) + gap_payload + b"\x01\x00\x00\xff\xff"
@@ -1077,6 +1144,11 @@ def run(ctx):
                 wire_oracle(logx, bytes(payload), zipv, "%s/%s encrypt" % (enc.name, ser), rep)
             return out
 
+        last_decrypt = {}
+
+        def last_decrypt_log():
+            return last_decrypt.get("log", [])
+
         def jwe_decrypt(token, key, **kw):
             ins.reset()
             if isinstance(token, str):
@@ -1085,6 +1157,7 @@ def run(ctx):
                 r = call(jwe.decrypt_json, token, key, **kw)
             if r[0] == "ok":
                 r = ("ok", r[1].plaintext)
+            last_decrypt["log"] = list(ins.log)
             return r, list(ins.log)
 
         def tamper(token, part):
@@ -1396,6 +1469,242 @@ def run(ctx):
                               {"fn": "decompress", "stream_hex": s.hex(), "stream": None})
         ctx.coverage["degenerate_inputs"] = degenerate
         tick("G4")
+        # ---- G5. ENTRY POINTS: every public route to the zip step (fail closed on unknown exports of joserfc.jwe)
+        from joserfc import jwt
+        from joserfc.rfc7516.message import perform_decrypt
+        from joserfc.rfc7516.compact import extract_compact
+        from joserfc.rfc7516.models import JWEZipModel
+        ENTRY = {"JWERegistry": "registry get_zip: G (allowed lists), G5 (custom zip model)",
+                 "JWEEncModel": "type of the enc models (instrumented: every enc)",
+                 "JWEZipModel": "base class: G5 custom registered zip model",
+                 "Recipient": "data holder (G3 object sequences)",
+                 "CompactEncryption": "G3 object path (attach_recipient + perform_encrypt), G5 perform_decrypt",
+                 "GeneralJSONEncryption": "G, G3, G4", "FlattenedJSONEncryption": "G, G3, G4",
+                 "encrypt_compact": "G, G2, G4", "decrypt_compact": "G, G2, G4",
+                 "encrypt_json": "G, G3, G4", "decrypt_json": "G, G3, G4", "default_registry": "default in every call"}
+        exported = list(getattr(jwe, "__all__", []))
+        unknown = [n for n in exported if n not in ENTRY]
+        ctx.coverage["entry_points"] = {"jwe.__all__": exported, "covered": ENTRY, "unknown_exports": unknown,
+                                        "others": ["jwt.encode/jwt.decode with a JWERegistry", "rfc7516.message.perform_encrypt/"
+                                                   "perform_decrypt on objects", "DeflateZipModel.compress/decompress directly"]}
+        if unknown or not exported:
+            ctx.violation({"kind": "entry-point-unknown"},
+                          "joserfc.jwe exports %r: not in the table of entry points of this check (can it reach the zip step?)" % (unknown,),
+                          {"fn": "entry", "unknown": unknown, "no_failing_input_found": True, "broken": "harness entry-point table"})
+        jreg = JWERegistry()
+        for enc in two_encs:
+            k1 = keys[enc.name]
+            for n in (0, 40, LIMIT - 100, LIMIT + 1):
+                claims = {"iss": "joserfc", "pad": "h" * n} if n else {}
+                hdr = {"alg": "dir", "enc": enc.name, "zip": "DEF"}
+                from joserfc.rfc7519.claims import convert_claims
+                pbytes = convert_claims(claims, None)
+                ins.reset()
+                r = call(jwt.encode, hdr, claims, k1, registry=jreg)
+                bump("entry_jwt")
+                ctx.note_case(("jwt", enc.name, n))
+                rep = {"fn": "jwt", "enc": enc.name, "pad": n}
+                if r[0] != "ok":
+                    ctx.violation({"kind": "jwt-encode-raises"}, "jwt.encode over JWE with zip raised %s (claims of %d octets)" % (
+                        exn_class(r[1]), len(pbytes)), rep)
+                    continue
+                wire_oracle(list(ins.log), pbytes, "DEF", "jwt.encode/%s" % enc.name, rep)
+                ins.reset()
+                rd = call(jwt.decode, r[1], k1, registry=jreg)
+                logx = list(ins.log)
+                infl = [e for e in logx if e[0] == "inflate"]
+                if len(pbytes) <= LIMIT:
+                    if rd[0] != "ok" or rd[1].claims != claims:
+                        ctx.violation({"kind": "roundtrip"}, "jwt.decode(jwt.encode(claims)) over JWE with zip: %s (claims of %d octets)" % (
+                            exn_class(rd[1]) if rd[0] == "err" else "other claims", len(pbytes)), rep)
+                elif rd[0] == "ok" or exn_class(rd[1]) != "EJose ExceededSizeError":
+                    ctx.violation({"kind": "exceeded-not-raised" if rd[0] == "err" else "truncated-return"},
+                                  "jwt.decode of a JWE whose claims expand to %d octets gave %s" % (
+                                      len(pbytes), exn_class(rd[1]) if rd[0] == "err" else "claims"), rep)
+                if len(infl) != 1 or infl[0][3] != LIMIT + 1:
+                    ctx.violation({"kind": "memory"}, "jwt.decode: zlib calls %r" % ([e[3] for e in infl],), rep)
+                # the same token through the object-level API
+                ins.reset()
+                obj = extract_compact(r[1].encode("ascii"))
+                obj.recipient.recipient_key = k1
+                ro = call(perform_decrypt, obj, default_registry)
+                bump("entry_perform_decrypt")
+                if len(pbytes) <= LIMIT and (ro[0] != "ok" or obj.plaintext != pbytes):
+                    ctx.violation({"kind": "roundtrip"}, "perform_decrypt on an extracted object: %s" % (
+                        exn_class(ro[1]) if ro[0] == "err" else "%d octets" % len(obj.plaintext or b"")), rep)
+                if len(pbytes) > LIMIT and (ro[0] == "ok" or exn_class(ro[1]) != "EJose ExceededSizeError"):
+                    ctx.violation({"kind": "exceeded-not-raised" if ro[0] == "err" else "truncated-return"},
+                                  "perform_decrypt: expansion of %d octets gave %s" % (len(pbytes), "data" if ro[0] == "ok" else exn_class(ro[1])), rep)
+        # a zip model registered by the caller: the limit of the built-in DEF is not a property of other models (recorded);
+        # it is still only applied to the output of a successful enc.decrypt
+        observed = {}
+
+        class C17CustomZip(JWEZipModel):
+            name = "C17X"
+            description = "custom zip model of the C17 check"
+            recommended = False
+            seen = []
+
+            def compress(self, s):
+                return b"\x01" + bytes(s)[::-1]
+
+            def decompress(self, s):
+                C17CustomZip.seen.append(bytes(s))
+                return bytes(s)[1:][::-1]
+        JWERegistry.register(C17CustomZip())
+        try:
+            enc = two_encs[0]
+            bigp = bytes([cbyte]) * 300000
+            al = ["dir", enc.name, "C17X"]
+            ins.reset()
+            tok = jwe.encrypt_compact({"alg": "dir", "enc": enc.name, "zip": "C17X"}, bigp, keys[enc.name], algorithms=al)
+            ins.reset()
+            rc = call(jwe.decrypt_compact, tok, keys[enc.name], algorithms=al)
+            decs = [e for e in ins.log if e[0] == "decrypt"]
+            observed["custom_zip_model"] = ("300000-octet plaintext returned: the 256000 limit belongs to the built-in DEF model only"
+                                            if rc[0] == "ok" and rc[1].plaintext == bigp else "decrypt gave %s" % (
+                                                exn_class(rc[1]) if rc[0] == "err" else "other data"))
+            if not (len(decs) == 1 and decs[0][2][0] == "ok" and C17CustomZip.seen == [bytes(decs[0][2][1])]):
+                ctx.violation({"kind": "decompress-before-auth"}, "custom zip model: decompress was not applied exactly to the output "
+                              "of the successful enc.decrypt", {"fn": "custom-zip"})
+            C17CustomZip.seen.clear()
+            rt = call(jwe.decrypt_compact, tamper(tok, "tag"), keys[enc.name], algorithms=al)
+            if rt[0] == "ok" or C17CustomZip.seen:
+                ctx.violation({"kind": "decompress-before-auth"}, "custom zip model: tampered token decompressed/accepted", {"fn": "custom-zip"})
+            rn = call(jwe.decrypt_compact, tok, keys[enc.name])
+            observed["custom_zip_not_allowed"] = "ok" if rn[0] == "ok" else exn_class(rn[1])
+            bump("entry_custom_zip")
+        finally:
+            JWERegistry.algorithms["zip"].pop("C17X", None)
+        # zip outside the protected header (shared unprotected / per-recipient header): recorded
+        for where in ("unprotected", "recipient"):
+            enc = two_encs[0]
+            p = b"hello hello hello " * 30
+            obj = jwe.FlattenedJSONEncryption({"enc": enc.name, "alg": "dir"}, p, {"zip": "DEF"} if where == "unprotected" else None)
+            obj.add_recipient({"zip": "DEF"} if where == "recipient" else {}, keys[enc.name])
+            ins.reset()
+            re_ = call(jwe.encrypt_json, obj, None)
+            le = list(ins.log)
+            ins.reset()
+            rd = call(jwe.decrypt_json, re_[1], keys[enc.name]) if re_[0] == "ok" else re_
+            ld = list(ins.log)
+            bump("entry_zip_unprotected")
+            observed["zip_in_%s_header" % where] = (
+                ("encrypt %s; " % ("compresses" if any(e[0] == "compress" for e in le) else "does not compress") if re_[0] == "ok"
+                 else "encrypt raises %s; " % exn_class(re_[1])) +
+                ("decrypt %s" % ("inflates" if any(e[0] == "inflate" for e in ld) else "does not inflate, returns the octets as they are")
+                 if rd[0] == "ok" else "decrypt raises %s" % exn_class(rd[1])))
+            if rd[0] == "ok" and rd[1].plaintext != p:
+                ctx.violation({"kind": "roundtrip"}, "zip=DEF in the %s header: encrypt+decrypt does not give back the plaintext" % where,
+                              {"fn": "zip-unprotected", "where": where})
+        # zip header values of the wrong type / unknown names: refused, nothing compressed, nothing inflated
+        def craft_compact(enc, prot, msg):
+            ph = b64e(json.dumps(prot, separators=(",", ":")).encode())
+            iv = bytes(rng.randrange(256) for _ in range(enc.iv_size // 8))
+            ct, tag = type(enc).encrypt(enc, msg, keys[enc.name].raw_value, iv, ph.encode("ascii"))
+            return ".".join([ph, "", b64e(iv), b64e(ct), b64e(tag)])
+        good_raw = zlib.compress(b"wrong zip value " * 10)[2:-4]
+        for enc in (encs if not ctx.quick else two_encs):
+            for zv in ["def", "DEF ", " DEF", "", "GZ", "DEFLATE", None, 0, True, ["DEF"], {"a": 1}]:
+                prot = {"alg": "dir", "enc": enc.name, "zip": zv}
+                ins.reset()
+                re_ = call(jwe.encrypt_compact, prot, b"wrong zip value " * 10, keys[enc.name])
+                le = list(ins.log)
+                bump("wrong_zip_value")
+                ctx.note_case(("wrongzip", enc.name, repr(zv)))
+                rep = {"fn": "wrong-zip", "enc": enc.name, "zip": repr(zv)}
+                if re_[0] == "ok" or not lib.is_allowed_exn(re_[1]) or any(e[0] in ("encrypt", "compress") for e in le):
+                    ctx.violation({"kind": "wrong-zip-accepted"}, "encrypt_compact with zip=%r: %s" % (
+                        zv, "accepted" if re_[0] == "ok" else exn_class(re_[1])), rep)
+                tok = craft_compact(enc, prot, good_raw)
+                if isinstance(zv, str):
+                    rd = check_jwe(tok, keys[enc.name], None, None, "%s/compact/wrong-zip" % enc.name,
+                                   {"enc": enc.name, "ser": "compact", "zipvalue": zv, "data": {"cls": "lit", "hex": "", "n": 0}}, zipv=zv)
+                    ld = last_decrypt_log()
+                else:
+                    ins.reset()
+                    rd = call(jwe.decrypt_compact, tok, keys[enc.name])
+                    ld = list(ins.log)
+                if rd[0] == "ok" or not lib.is_allowed_exn(rd[1]) or any(e[0] in ("inflate", "decompress-enter") for e in ld):
+                    ctx.violation({"kind": "wrong-zip-accepted"}, "decrypt_compact of an authentic token with zip=%r: %s" % (
+                        zv, "accepted" if rd[0] == "ok" else exn_class(rd[1])), rep)
+        # twins: does ENCRYPTION refuse what decryption will refuse?  (recorded; the text speaks of decryption only)
+        enc = two_encs[0]
+        ins.reset()
+        ro = call(jwe.encrypt_compact, {"alg": "dir", "enc": enc.name, "zip": "DEF"}, bytes([cbyte]) * (LIMIT + 1), keys[enc.name])
+        observed["encrypt_over_limit"] = ("accepted at encryption (compress has no limit); the token is refused at decryption"
+                                          if ro[0] == "ok" else "refused at encryption: %s" % exn_class(ro[1]))
+        ctx.coverage["recorded_behaviour"] = observed
+        tick("G5")
+        # ---- G6. HISTORIES / STATE: many messages through the same model object — bombs, corrupt, wrapped (78 9C / 78 01 /
+        # 78 DA), raw, gzip-like — then valid ones again; each verdict equals its first-in-process verdict; compress after
+        # decompress; the same from several threads at once
+        pool = list(hist_pool)
+        rng.shuffle(pool)
+        sample = pool[:ctx.scale(300, 4000)]
+        ref_text = bytes(rng.choice(b"abcdefgh ") for _ in range(500))
+        ref_comp = zipm.compress(ref_text)
+        prev = []
+        for i, (s, desc, vk) in enumerate(sample):
+            if i % 25 == 0:
+                call(zipm.decompress, huge_raw)
+                call(zipm.decompress, b"\x1f\x8b\x08\x00" + s)
+            if i % 10 == 3 and zipm.compress(ref_text) != ref_comp:
+                ctx.violation({"kind": "history-dependent", "fn": "compress"}, "compress gives another result after %d decompress calls" % i,
+                              {"fn": "history", "prev": prev[-5:], "stream": None})
+            ins.reset()
+            r = call(zipm.decompress, s)
+            bump("history")
+            if verdict_key(r) != vk:
+                ctx.violation({"kind": "history-dependent"},
+                              "decompress gives %r for a stream that gave %r when it was first seen in this process [%s]" % (
+                                  verdict_key(r), vk, json.dumps(desc)[:160]),
+                              {"fn": "history", "prev": prev[-5:], "stream": desc})
+            prev.append(desc)
+        # Coq: short histories with repeated streams against decompress_seq
+        small_pool = [x for x in pool if len(x[0]) <= 160][:400]
+        for _ in range(ctx.scale(6, 60)):
+            if len(small_pool) < 4:
+                break
+            items = [rng.choice(small_pool) for _ in range(6)]
+            items = items + [items[0], items[2]]
+            ins.reset()
+            outs = [call(zipm.decompress, s) for (s, _d, _v) in items]
+            logx = list(ins.log)
+            spf = lambda b: specs.get(b)
+            st = [spf(s) for (s, _d, _v) in items]
+            ev_t = events_term(logx, spf)
+            ex = [c_res_spec(o, spf) for o in outs]
+            if None in st or ev_t is None or None in ex:
+                skipped_big[0] += 1
+                continue
+            add("CHist %s %s %s" % (c_list(spec_term(x) for x in st), ev_t, c_list(ex)), ("history", [d for (_s, d, _v) in items]))
+        # threads
+        import threading
+        work = sample[:ctx.scale(120, 600)] + [x for x in pool if len(x[0]) > 20000][:10]
+        terr = []
+
+        def worker(k):
+            for j in range(len(work)):
+                s, desc, vk = work[(j * 7 + k * 13) % len(work)]
+                r = call(zipm.decompress, s)
+                if verdict_key(r) != vk:
+                    terr.append((desc, vk, verdict_key(r)))
+                if j % 9 == k and zipm.compress(ref_text) != ref_comp:
+                    terr.append(("compress", None, None))
+        if work:
+            ths = [threading.Thread(target=worker, args=(k,)) for k in range(4)]
+            for th in ths:
+                th.start()
+            for th in ths:
+                th.join()
+            bump("history_threads")
+            ins.reset()
+            if terr:
+                ctx.violation({"kind": "history-dependent", "fn": "threads"},
+                              "decompress/compress called from 4 threads at once: %d verdict(s) differ from the single-threaded ones, e.g. %r" % (
+                                  len(terr), terr[0][1:]), {"fn": "history", "threads": 4, "stream": terr[0][0], "prev": []})
+        tick("G6")
         # the 64 MiB / 512 MiB expansion through a JWE (in-process; memory measured above)
         token, key = jwe_encrypt(encs[0], "compact", b"x", stream=huge_raw)
         check_jwe(token, key, None, zn, "%s/compact/huge" % encs[0].name,
